@@ -6,7 +6,9 @@
                             c.union_count=<n> cpp.union_count=<n> c.caps=<n,n,..|->       (keys the model cannot evaluate: `none`)
      capchk <id> <cap_bytes>   -> ok c=<refused 1|0|none> cpp=<..>
      lit <u|s> <w> <decimal>   -> ok <token> <dm1> <dm2> <dm3>   with dmN = <bits>:<u|s>:<value> | diag     (models ip16, ilp32, lp64)
-     flt <num> <den>           -> ok <expr> <num>/<den> | ok <expr> unparsable
+     flt <num> <den> [<oracle>] -> ok <expr> <num>/<den>|unparsable div=<0|1>   oracle = the string repr(float(num/den)) returns (used
+                                  by the translated helper only when an operand of the division is out of range); the rational is the
+                                  exact value of the expression (division, integral form or decimal floating constant)
      b2b <n> / fit <w>         -> ok <n> | ok none
      tableok                   -> ok <0|1> *)
 open Model
@@ -108,11 +110,13 @@ let handle (line : string) : string =
       "ok " ^ tok_s ^ " " ^ String.concat " " parts
     | "flt" ->
       if not (is_dec toks.(1) && is_dec toks.(2)) then raise (Bad "invalid_arg");
-      let (e, r) = drv_flt (str_of_string toks.(1)) (str_of_string toks.(2)) in
+      let oracle = if Array.length toks > 3 then toks.(3) else "" in
+      let ((e, r), div) = drv_flt (str_of_string oracle) (str_of_string toks.(1)) (str_of_string toks.(2)) in
       let e_s = String.map (fun c -> if c = ' ' then '_' else c) (string_of_str e) in
+      let e_s = if e_s = "" then "<empty>" else e_s in
       (match r with
-       | Some (n, d) -> Printf.sprintf "ok %s %s/%s" e_s (string_of_z n) (string_of_z d)
-       | None -> Printf.sprintf "ok %s unparsable" e_s)
+       | Some (n, d) -> Printf.sprintf "ok %s %s/%s div=%s" e_s (string_of_z n) (string_of_z d) (if div then "1" else "0")
+       | None -> Printf.sprintf "ok %s unparsable div=%s" e_s (if div then "1" else "0"))
     | "b2b" -> if not (is_dec toks.(1)) then raise (Bad "invalid_arg"); "ok " ^ show_oz (filter_bits2bytes_ceil (z_of_string toks.(1)))
     | "fit" -> if not (is_dec toks.(1)) then raise (Bad "invalid_arg"); "ok " ^ show_oz (get_best_fit (z_of_string toks.(1)))
     | "tableok" -> if table_ok then "ok 1" else "ok 0"
